@@ -1,5 +1,6 @@
 import BU.Properties.C09
 import BU.Properties.C09_Gen
+import BU.Properties.C09_GenPub
 #print axioms C09.wif_prefixes
 #print axioms C09.wif_roundtrip
 #print axioms C09.wif_standard_form
@@ -18,3 +19,13 @@ import BU.Properties.C09_Gen
 #print axioms C09Gen.gen_to_wif
 #print axioms C09Gen.gen_wif_roundtrip
 #print axioms C09Gen.gen_wif_rejects
+#print axioms C09GenPub.gen_to_hex
+#print axioms C09GenPub.gen_to_x_only_hex
+#print axioms C09GenPub.gen_is_y_even
+#print axioms C09GenPub.gen_to_hash160
+#print axioms C09GenPub.gen_from_hex
+#print axioms C09GenPub.gen_from_hex_ok
+#print axioms C09GenPub.gen_from_hex_rejects
+#print axioms C09GenPub.pubToBytes_len
+#print axioms C09GenPub.gen_sec_roundtrip
+#print axioms C09GenPub.gen_offcurve_rejected
